@@ -100,8 +100,15 @@ def run_pool(names, tier, seed, jobs):
 def cmd_check(prop, tier, seed, jobs, only=None, verbose=False):
     t0 = time.time()
     reg = load_harnesses()
-    known = [k for k in load_known() if k.get("property") == prop and k.get("status", "open") == "open"]
+    allknown = [k for k in load_known() if k.get("status", "open") == "open"]
+    known = [k for k in allknown if k.get("property") == prop]
     known_keys = {k["key"]: k for k in known}
+    # a mechanism-pinned finding recorded under *other* properties: a shared harness re-observing it while another
+    # property is checked is neither a finding nor a violation of this property
+    elsewhere = {}
+    for k in allknown:
+        if k["key"] not in known_keys:
+            elsewhere.setdefault(k["key"], []).append(k["property"])
     names = select(reg, prop, tier, only)
     # a canary per run: a deliberately false contract must be refuted and replayed (2.8)
     canaries = [n for n, h in reg.items() if h.expect == "refuted" and "canary" in n]
@@ -220,6 +227,8 @@ def cmd_check(prop, tier, seed, jobs, only=None, verbose=False):
                 key = f"input:{fnd['key']}"
                 if key in known_keys:
                     known_seen.append((key, known_keys[key]["what"]))
+                elif key in elsewhere:
+                    notes.append(f"shared harness {hn} re-observed finding {key}, which is recorded under {sorted(set(elsewhere[key]))}, not under {prop}")
                 else:
                     path = write_replay(prop, hn, fnd["key"], dict(bounded=fnd), r, fp, tier)
                     violations.append((key, path, True))
